@@ -26,6 +26,7 @@ from ..mplib import Q
 from ..verdict import Result
 
 LEVEL = "exploration"
+AWKWARD_REGISTRATION_MIX = True
 RULE = ("range/sign/predicate contracts on float64 object, NumPy and Awkward vectors and 60-digit objects, all 20 "
         "coordinate systems (all pairs for binary ones), operands from generic strata plus boundary strata (axis-aligned, "
         "zero components, phi at and next to +-pi, on/next to the light cone, signed zeros, 1e-300..1e150 magnitudes), "
